@@ -66,7 +66,7 @@ def knownFormats : List String :=
 /-- the `if … elif …` chain over `attestation_object.fmt` -/
 def verifyFormat (fmt : Cbor) (ao : AttObj) (att : AttestedCred) (cdj : Bytes) (roots : List Root) : M Unit :=
   match fmtText fmt with
-  | some "none" => reject ao.attStmt.anySet (regErr "reg.none-with-statement")
+  | some "none" => reject (ao.attStmt.anySet || cborTruthy ao.attStmtRaw) (regErr "reg.none-with-statement")
   | some "fido-u2f" =>
     verifyFidoU2f ao.attStmt cdj ao.authData.rpIdHash att.credentialId att.publicKey att.aaguid roots
   | some "packed" => verifyPacked ao.attStmt ao.authDataRaw cdj att.publicKey roots
